@@ -609,3 +609,203 @@ theorem text_skip_matching_close (doc ms : DMembers) (g gc gt : Bytes) (b : Bool
   exact skipAt_items b pre more g gc gt ms r0 f n hvl hsafe hclash hrel hgood hf hn
 
 end Jomini.TextReader
+
+namespace Jomini.TextReader
+open Jomini Jomini.TextReader.Spec
+
+/-! ### skip_unquoted_value behind a header scalar -/
+
+/-- what the op `tskipu` does: read `k` tokens, read one more which must be an unquoted scalar, call
+`skip_unquoted_value`, then read tokens to the end -/
+def skipUAt (fuel n k : Nat) (r : Reader) : Option (List Token × Token × Run) :=
+  match readToks fuel k r with
+  | some (ts, r1) =>
+    match next fuel r1 with
+    | .ok r2 (some (.unquoted hb)) =>
+      match skipUnquotedValue fuel r2 with
+      | .ok r3 () => some (ts, .unquoted hb, lexAll fuel n r3 [])
+      | _ => none
+    | _ => none
+  | none => none
+
+theorem skipUScan_blanks (g rest : Bytes) (i : Nat) (h : ∀ x ∈ g, isBlank x = true) :
+    skipUScan (g ++ 123 :: rest) i = .open_ (i + g.length) := by
+  induction g generalizing i with
+  | nil => simp [skipUScan]
+  | cons c g ih =>
+    have hc := h c (by simp)
+    have hne : (c == 123) = false := by
+      cases hcc : c == 123 with
+      | false => rfl
+      | true => rw [eq_of_beq hcc] at hc; simp [isBlank] at hc
+    simp only [List.cons_append, skipUScan, hne, Bool.false_eq_true, if_false, hc, if_true]
+    rw [ih _ (fun x hx => h x (by simp [hx]))]; simp; omega
+
+/-- **lexeme level**: `pre ++ header ++ g ++ { ms } ++ more` with ONLY BLANKS in the gap `g` between the header scalar
+and the brace: `skip_unquoted_value` called right after the header lands behind the matching close. -/
+theorem skipUAt_items (b : Bool) (pre more : List (Bytes × Lexeme)) (g0 hb g gc gt : Bytes) (ms : DMembers) (r0 : Reader) (f n : Nat) :
+    let items := pre ++ (g0, Lexeme.scalar false hb) :: (g, Lexeme.open_) :: (itemsM ms ++ (gc, Lexeme.close) :: more)
+    let data := bomBytes b ++ renderLex items gt
+    ValidLex items gt → (∀ x ∈ g, isBlank x = true) → (∀ it ∈ itemsM ms, skipSafeTok it.2.tok = true) →
+    (b = false → ¬∃ r', renderLex items gt = 0xef :: 0xbb :: 0xbf :: r') →
+    Rel r0 0 .unknown data → Good data.length r0 → 2 * data.length + 4 ≤ f → more.length + 1 ≤ n →
+    ∃ run, skipUAt f n pre.length r0 = some (pre.map (fun x => x.2.tok), .unquoted hb, run) ∧
+      run.toks = more.map (fun x => x.2.tok) ∧ run.out = .end_ ∧ run.final.position = data.length := by
+  intro items data hv hblank hsafe hclash hrel hgood hf hn
+  have hs0 : ∃ bs, Skips ((0 : Nat) == 0) (bomBytes b) 0 .unknown bs := by
+    cases b with
+    | true => exact ⟨.present, .bom rfl (.nil _ _)⟩
+    | false => exact ⟨.unknown, .nil _ _⟩
+  obtain ⟨bs, hs0⟩ := hs0
+  have hclash0 : (0 : Nat) = 0 → bomBytes b = [] → bs = .unknown → ¬∃ r', renderLex items gt = 0xef :: 0xbb :: 0xbf :: r' := by
+    intro _ hb0 _
+    cases b with
+    | true => simp [bomBytes] at hb0
+    | false => exact hclash rfl
+  obtain ⟨r1, pos1, b1, pre1, bs1, hread, hr1, hs1, hcl1, hg1, hN1, hpos1⟩ :=
+    readToks_faithful data.length gt ((g0, Lexeme.scalar false hb) :: (g, Lexeme.open_) :: (itemsM ms ++ (gc, Lexeme.close) :: more))
+      pre (bomBytes b) r0 0 .unknown bs f (Or.inl hrel) hgood (Nat.le_refl _) hs0 hv hclash0 hf
+  have hv1 := ValidLex_suffix _ _ _ hv
+  obtain ⟨r2, b2, e2, hrelq2, _, hg2, hc2⟩ := next_item hr1 hg1 hN1 hs1 hv1 hcl1 hf
+  simp only [Lexeme.text] at hrelq2
+  have hv2 : ValidLex ((g, Lexeme.open_) :: (itemsM ms ++ (gc, Lexeme.close) :: more)) gt := by
+    simp only [ValidLex] at hv1; exact hv1.2.2
+  have hv3 : ValidLex (itemsM ms ++ (gc, Lexeme.close) :: more) gt := by simp only [ValidLex] at hv2; exact hv2.2.2
+  have hhb : 0 < hb.length := by
+    simp only [ValidLex] at hv1; have := lexeme_text_pos hv1.2.1; simpa [Lexeme.text] using this
+  -- the data behind the header: blanks, the brace, the container's members
+  have hD : renderLex ((g, Lexeme.open_) :: (itemsM ms ++ (gc, Lexeme.close) :: more)) gt =
+      g ++ 123 :: renderLex (itemsM ms ++ (gc, Lexeme.close) :: more) gt := by simp [renderLex, Lexeme.text]
+  rw [hD] at hrelq2
+  -- with or without the swallowed space, the reader is `Rel`ated to blanks ++ `{` ++ members
+  obtain ⟨pos', g', hrel2, hbl', hpg, hgle⟩ : ∃ pos' g', Rel r2 pos' b2 (g' ++ 123 :: renderLex (itemsM ms ++ (gc, Lexeme.close) :: more) gt) ∧
+      (∀ x ∈ g', isBlank x = true) ∧ pos' + g'.length = pos1 + (pre1.length + g0.length + hb.length) + g.length ∧ g'.length ≤ g.length := by
+    rcases hrelq2 with h | ⟨tl, htl, h⟩
+    · exact ⟨_, g, h, hblank, rfl, Nat.le_refl _⟩
+    · cases g with
+      | nil => simp at htl
+      | cons c g' =>
+        simp only [List.cons_append, List.cons.injEq] at htl
+        refine ⟨_, g', by rw [htl.2]; exact h, fun x hx => hblank x (by simp [hx]), by simp; omega, by simp⟩
+  have hpos2 : pos' + g'.length + 1 ≠ 0 := by omega
+  have hbal := balancedSkip_container ms gc more gt (pos' + g'.length + 1) b2 hpos2 hv3 hsafe
+  have hD2 : (renderLex (itemsM ms ++ (gc, Lexeme.close) :: more) gt).length =
+      (renderM ms).length + gc.length + 1 + (renderLex more gt).length := by
+    rw [renderLex_append, renderLex_itemsM]; simp [renderLex, Lexeme.text]; omega
+  have hdata2 : 2 ≤ data.length := by
+    have h1 := renderLex_mid_length (pre ++ [(g0, Lexeme.scalar false hb)]) (g, Lexeme.open_) (itemsM ms ++ (gc, Lexeme.close) :: more) gt
+    simp only [Lexeme.text, List.length_singleton, List.append_assoc, List.cons_append, List.nil_append] at h1
+    show 2 ≤ (bomBytes b ++ renderLex items gt).length
+    simp only [List.length_append]
+    show 2 ≤ (bomBytes b).length + (renderLex (pre ++ (g0, Lexeme.scalar false hb) :: (g, Lexeme.open_) :: (itemsM ms ++ (gc, Lexeme.close) :: more)) gt).length
+    omega
+  have hcap2 : r2.cap = 0 ∨ 3 ≤ r2.cap := by
+    rcases hg2.1 with h | h
+    · exact Or.inl h
+    · right; omega
+  have hD1 : (pre1 ++ renderLex ((g0, Lexeme.scalar false hb) :: (g, Lexeme.open_) :: (itemsM ms ++ (gc, Lexeme.close) :: more)) gt).length =
+      pre1.length + g0.length + hb.length + g.length + 1 + (renderLex (itemsM ms ++ (gc, Lexeme.close) :: more) gt).length := by
+    simp [renderLex, Lexeme.text]; omega
+  have hdle : (g' ++ 123 :: renderLex (itemsM ms ++ (gc, Lexeme.close) :: more) gt).length ≤ data.length := by
+    rw [hD1] at hN1; simp only [List.length_append, List.length_cons]; omega
+  have hsu := C09_text_skipu r2 pos' b2 _ ((itemsM ms).length + 1) f hrel2 hg2.2 hcap2 (by have := hrel2.rest_le; omega)
+  unfold SkipUOut at hsu
+  rw [skipUScan_blanks g' _ 0 hbl'] at hsu
+  simp only [Nat.zero_add] at hsu
+  have hdrop1 : (g' ++ 123 :: renderLex (itemsM ms ++ (gc, Lexeme.close) :: more) gt).drop (g'.length + 1) =
+      renderLex (itemsM ms ++ (gc, Lexeme.close) :: more) gt := by
+    rw [show g'.length + 1 = (g' ++ [123]).length by simp, show g' ++ 123 :: renderLex (itemsM ms ++ (gc, Lexeme.close) :: more) gt = (g' ++ [123]) ++ renderLex (itemsM ms ++ (gc, Lexeme.close) :: more) gt by simp, List.drop_left]
+  obtain ⟨r3, e3, hrel3⟩ := hsu _ (by rw [hdrop1]; exact hbal)
+  have hdrop3 : (g' ++ 123 :: renderLex (itemsM ms ++ (gc, Lexeme.close) :: more) gt).drop (g'.length + 1 + ((renderM ms).length + gc.length + 1)) = renderLex more gt := by
+    rw [← List.drop_drop, hdrop1, renderLex_append]
+    have hL : (renderLex (itemsM ms) []).length = (renderM ms).length := by rw [renderLex_itemsM]; simp
+    rw [show (renderM ms).length + gc.length + 1 = (renderLex (itemsM ms) []).length + (gc.length + 1) by omega,
+      ← List.drop_drop, renderLex_drop]
+    simp only [renderLex, Lexeme.text]
+    rw [show gc.length + 1 = (gc ++ [125]).length by simp, ← List.append_assoc, List.drop_left]
+  rw [hdrop3] at hrel3
+  have hg3 : Good data.length r3 := by
+    have h1 := skipUnquotedValue_inv NoFaults_closed f r2 hg2.2
+    have h2 := skipUnquotedValue_inv (Cap_closed r2.cap) f r2 rfl
+    rw [e3] at h1 h2
+    exact ⟨by rw [show r3.cap = r2.cap from h2]; exact hg2.1, h1⟩
+  have hfin := lexAll_faithful_good data.length gt more [] r3 _ b2 b2 f n [] (by simp only [List.nil_append]; exact Or.inl hrel3) hg3
+    (by simp only [List.nil_append]; omega) (.nil _ _) (ValidLex_suffix _ _ _ hv3 |> fun h => by simp only [ValidLex] at h; exact h.2.2)
+    (fun h => absurd h (by omega)) hn hf
+  obtain ⟨t1, t2, t3⟩ := hfin
+  refine ⟨lexAll f n r3 [], ?_, by simpa using t1, t2, ?_⟩
+  · simp only [skipUAt, hread, e2, Lexeme.tok, e3]
+  · rw [t3]
+    have hdl : data.length = (bomBytes b ++ renderLex (pre ++ (g0, Lexeme.scalar false hb) :: (g, Lexeme.open_) :: (itemsM ms ++ (gc, Lexeme.close) :: more)) gt).length := rfl
+    rw [hdl]
+    simp only [List.nil_append, List.length_append, Nat.zero_add] at hpos1 hD1 ⊢
+    rw [hD1, hD2] at hpos1
+    omega
+
+end Jomini.TextReader
+
+namespace Jomini.TextReader
+open Jomini Jomini.TextReader.Spec
+
+/-- **`C09_text_skip_matching_close`** (see `text_skip_matching_close`): on every valid reader-safe rendering of a
+document, for every container of it, `skip_container` called right after the container's `Open` token ends exactly behind
+that container's matching close — braces and `#` inside quoted scalars, escaped quotes, braces inside comments included —:
+the tokens read afterwards are the document's tokens after the container, then a clean end at the end of the input.  Slice
+reader and every fault-free schedule with a buffer larger than the input. -/
+theorem C09_text_skip_matching_close (doc ms : DMembers) (g gc gt : Bytes) (b : Bool) (pre more : List (Bytes × Lexeme))
+    (r0 : Reader) (f n : Nat)
+    (hocc : itemsM doc = pre ++ itemsV (.cont g ms gc) ++ more)
+    (hv : ValidM doc gt) (hgt : EndGap gt) (hsafe : ∀ it ∈ itemsM ms, skipSafeTok it.2.tok = true)
+    (hclash : b = false → ¬∃ r', renderM doc ++ gt = 0xef :: 0xbb :: 0xbf :: r')
+    (hr0 : GoodStart (bomBytes b ++ (renderM doc ++ gt)) r0)
+    (hf : 2 * (bomBytes b ++ (renderM doc ++ gt)).length + 4 ≤ f) (hn : more.length + 1 ≤ n) :
+    ∃ run, skipAt f n pre.length r0 = some (pre.map (fun x => x.2.tok), run) ∧
+      run.toks = more.map (fun x => x.2.tok) ∧ run.out = .end_ ∧
+      run.final.position = (bomBytes b ++ (renderM doc ++ gt)).length :=
+  text_skip_matching_close doc ms g gc gt b pre more r0 f n hocc hv hgt hsafe hclash hr0 hf hn
+
+/-- every container that occurs in the document has such a decomposition (so the theorem applies to all of them) -/
+theorem C09_text_container_segment {doc ms : DMembers} {g gc : Bytes} (h : InM (.cont g ms gc) doc) :
+    ∃ pre more, itemsM doc = pre ++ itemsV (.cont g ms gc) ++ more := h.segment
+
+/-- **`C09_text_skipu_matching_close`**: `skip_unquoted_value` called right after an unquoted header scalar that is
+followed — with ONLY BLANK bytes (space, tab, LF, CR, `;`) in between, the exact condition under which the code skips —
+by a container: it ends exactly behind the container's matching close; the tokens read afterwards are the document's tokens
+after the container.  (With a `#` comment in the gap it does not: `C09_known_skipu_comment_breaks`.) -/
+theorem C09_text_skipu_matching_close (doc ms : DMembers) (g0 hb g gc gt : Bytes) (b : Bool) (pre more : List (Bytes × Lexeme))
+    (r0 : Reader) (f n : Nat)
+    (hocc : itemsM doc = pre ++ (g0, Lexeme.scalar false hb) :: (itemsV (.cont g ms gc) ++ more))
+    (hblank : ∀ x ∈ g, isBlank x = true)
+    (hv : ValidM doc gt) (hgt : EndGap gt) (hsafe : ∀ it ∈ itemsM ms, skipSafeTok it.2.tok = true)
+    (hclash : b = false → ¬∃ r', renderM doc ++ gt = 0xef :: 0xbb :: 0xbf :: r')
+    (hr0 : GoodStart (bomBytes b ++ (renderM doc ++ gt)) r0)
+    (hf : 2 * (bomBytes b ++ (renderM doc ++ gt)).length + 4 ≤ f) (hn : more.length + 1 ≤ n) :
+    ∃ run, skipUAt f n pre.length r0 = some (pre.map (fun x => x.2.tok), .unquoted hb, run) ∧
+      run.toks = more.map (fun x => x.2.tok) ∧ run.out = .end_ ∧
+      run.final.position = (bomBytes b ++ (renderM doc ++ gt)).length := by
+  have hr : renderLex (itemsM doc) gt = renderM doc ++ gt := renderLex_itemsM doc gt
+  have hvl : ValidLex (itemsM doc) gt := by
+    have := validLex_itemsM doc [] gt (by simpa [renderLex] using hv) (by simpa [ValidLex] using hgt)
+    simpa using this
+  have hitems : itemsM doc = pre ++ (g0, Lexeme.scalar false hb) :: (g, Lexeme.open_) :: (itemsM ms ++ (gc, Lexeme.close) :: more) := by
+    rw [hocc]; simp [itemsV]
+  rw [← hr, hitems] at hr0 hf hclash ⊢
+  rw [hitems] at hvl
+  obtain ⟨hrel, hgood⟩ := hr0.rel
+  exact skipUAt_items b pre more g0 hb g gc gt ms r0 f n hvl hblank hsafe hclash hrel hgood hf hn
+
+/-- **the recorded finding `skipu-comment-before-brace`, on the model.**  Input `a=rgb #k\\n{ 1 } b`: after the tokens `a`,
+`=`, `rgb`, `skip_unquoted_value` returns `Ok` but has NOT skipped the container — the next token is `Open`, whereas
+reading tokens and counting opens and closes from there lands on `b`. -/
+theorem C09_known_skipu_comment_breaks :
+    let data : Bytes := [97, 61, 114, 103, 98, 32, 35, 107, 10, 123, 32, 49, 32, 125, 32, 98]
+    (match readToks 60 3 (fromSlice data) with
+     | some (_, r1) =>
+       match skipUnquotedValue 60 r1 with
+       | .ok r2 () => match next 60 r2 with | .ok _ (some t) => some t | _ => none
+       | _ => none
+     | none => none) = some Token.open_ ∧
+    (sliceTokens data).toks = [.unquoted [97], .op .eq, .unquoted [114, 103, 98], .open_, .unquoted [49], .close, .unquoted [98]] := by
+  decide +kernel
+
+end Jomini.TextReader
